@@ -204,18 +204,22 @@ def run(ctx, chk):
               "Complete is produced under %s (expected only: the first self.decoder.word() of the instruction failed)" % [c[1] for c in cs],
               raw.where("parse_inst", "Parser"), key="C14:complete-condition")
 
-    R5 = chk.rule("R-PROTO-5", "load_bytes/load_words hand out loader.module() only after parse_* returned Ok (`?`)")
-    for name, pname in (("load_bytes", "parse_bytes"), ("load_words", "parse_words")):
-        f = ctx.rspirv.fn("rspirv::dr::loader", name)
-        t = [show_stmt(s) for s in f["body"][1]]
-        arg = f["sig"]["params"][0][0]
-        good = t == ["let mut loader = Loader::new();", "binary::%s(%s, &mut loader)?;" % (pname, arg), "Ok(loader.module())"]
-        chk.check(R5, good, name, "body is %s" % t, raw.where(name, None, "loader.rs"))
+    R5 = chk.rule("R-PROTO-5", "load_bytes/load_words, evaluated with parse_* failing and succeeding: the parse error is returned unchanged and "
+                  "loader.module() is handed out only after parse_* returned Ok; parse_bytes/parse_words build one Parser on the caller's "
+                  "bytes and consumer and return its parse() result unchanged")
+    from . import headerx
+    for name in ("load_bytes", "load_words"):
+        try:
+            pb = headerx.load_problem(ctx, name)
+        except Anchor as ex:
+            pb = "not analysable: %s" % ex
+        chk.check(R5, pb is None, name, "%s %s" % (name, pb), raw.where(name, None, "loader.rs"), key="C14:load:" + name)
     for name in ("parse_bytes", "parse_words"):
-        f = ctx.rspirv.fn(PAR, name)
-        last = show_stmt(f["body"][1][-1])
-        chk.check(R5, last.startswith("Parser::new(") and last.endswith(").parse()"), name, "does not end with Parser::new(..).parse(): %s" % last,
-                  raw.where(name, None, "parser.rs"))
+        try:
+            pb = headerx.parse_entry_problem(ctx, name)
+        except Anchor as ex:
+            pb = "not analysable: %s" % ex
+        chk.check(R5, pb is None, name, "%s %s" % (name, pb), raw.where(name, None, "parser.rs"), key="C14:entry:" + name)
     chk.analysed.update({"cfg_blocks": g.n, "callback_sites": {k: len(v) for k, v in sites_by.items()}})
 
 
